@@ -409,3 +409,38 @@ Module C25Ex.
   Definition h : list hop :=
     [HPut 1 [97] [1]; HPut 2 [98] [7]; HFlush [1] []; HPut 1 [97] [2]; HDrop 2; HFlush [2] []].
 End C25Ex.
+
+(* ------------------------------------------------------------------ the world right after a completed flush *)
+Definition agrees_all (fk : bytes) (rc : flush_rec) (w : world) : Prop :=
+  forall n c, wget n w = Some c ->
+    exists s, dget fk c = Some (mark_of CLEAN (r_id rc)) /\ wget n (r_snap rc) = Some s /\ db_eq c s.
+
+Lemma agrees_all_agrees fk rc w : agrees_all fk rc w -> agrees fk (Some rc) w.
+Proof. intros A n c G. destruct (A n c G) as [s [M [Gs E]]]. right. exists rc, s. auto. Qed.
+
+Lemma agrees_all_verdict fk rc w l :
+  agrees_all fk rc w -> lists_world l w -> l <> [] ->
+  check_synced fk l = COk (Some (mark_of CLEAN (r_id rc))).
+Proof.
+  intros A L Hne. unfold check_synced. apply check_loop_complete_some; auto.
+  intros n c Hin. apply L in Hin. destruct (A n c Hin) as [s [M _]]. exact M.
+Qed.
+
+(* Initialize(names, expected flush ID): an OK verdict reports the expected mark and means the same *)
+Lemma safe_consistent_expected fk recs k w l f m :
+  safe fk recs k w -> lists_world l w -> l <> [] ->
+  check_loop fk l (Some f) false = COk (Some m) ->
+  m = f /\
+  exists rc, In rc recs /\ (r_pos rc <= k)%nat /\ m = mark_of CLEAN (r_id rc) /\
+    forall n c, wget n w = Some c ->
+      match wget n (r_snap rc) with Some s => db_eq c s | None => db_empty c end.
+Proof.
+  intros [S1 S2] L Hne E. destruct (check_loop_some _ _ _ _ _ E) as [_ [B [C _]]].
+  split; [symmetry; apply C; reflexivity|].
+  apply S2.
+  - destruct l as [|[n c] t]; [contradiction|]. exists n, c. apply L. left; auto.
+  - intros n c G. apply L in G. apply (B _ _ G).
+  - destruct l as [|[n c] t]; [contradiction|]. apply (B n c (or_introl eq_refl)).
+Qed.
+Lemma check_expected_not_none fk l f : check_loop fk l (Some f) false <> COk None.
+Proof. apply check_loop_some_not_none. Qed.
